@@ -117,6 +117,59 @@ class Observation:
     pass
 
 
+def prepare_xfer(obs, x):
+    w, spec, tmpdir, osu = obs.world, obs.spec, obs.tmpdir, obs.osutil
+    t = x.spec
+    size = t.get('size', 0)
+    x.data = payload(spec.get('seed', 0) * 1000 + x.idx, size)
+    subs = []
+    for si, b in enumerate(t.get('subs', [{}])):
+        subs.append(RecordingSubscriber(w, x.label, f's{si}', b))
+    x.subs = subs
+    w.s3.labels[(BUCKET, x.key)] = x.label
+    if x.kind == 'upload':
+        src = t.get('src', 'path')
+        if src == 'path':
+            path = os.path.join(tmpdir, f'src-{x.idx}')
+            with open(path, 'wb') as f:
+                f.write(x.data)
+            osu.labels[path] = x.label
+            x.src = path
+        elif src == 'seekable':
+            start = t.get('start', 0)
+            full = payload(7777 + x.idx, start) + x.data
+            x.src = SeekableSource(w, x.label, full, start=start, read_caps=t.get('src_caps'))
+        else:
+            x.src = NonSeekableSource(w, x.label, x.data)
+    elif x.kind == 'download':
+        w.s3.objects[(BUCKET, x.key)] = x.data
+        dst = t.get('dst', 'path')
+        if dst == 'path':
+            path = os.path.join(tmpdir, f'dst-{x.idx}')
+            osu.labels[path] = x.label
+            if t.get('preexisting'):
+                x.prev = b'previous-content-' + str(x.idx).encode()
+                with open(path, 'wb') as f:
+                    f.write(x.prev)
+            x.dest = path
+        elif dst == 'seekable':
+            x.dest = SeekableSink(w, x.label)
+        elif dst == 'nonseekable':
+            x.dest = NonSeekableSink(w, x.label)
+        elif dst == 'fifo':
+            path = os.path.join(tmpdir, f'fifo-{x.idx}')
+            os.mkfifo(path)
+            osu.labels[path] = x.label
+            x.dest = path
+            x.fifo_reader = FifoReader(path)
+            x.fifo_reader.start()
+    elif x.kind == 'copy':
+        w.s3.objects[(SRC_BUCKET, 'src-' + x.key)] = x.data
+        w.s3.labels[(SRC_BUCKET, 'src-' + x.key)] = x.label
+    elif x.kind == 'delete':
+        w.s3.objects[(BUCKET, x.key)] = x.data
+
+
 def build_config(cfg):
     return TransferConfig(**cfg)
 
@@ -163,55 +216,7 @@ def run(spec, hang_ok=False):
 
     # ---- prepare transfers -------------------------------------------------
     for x in xfers:
-        t = x.spec
-        size = t.get('size', 0)
-        x.data = payload(spec.get('seed', 0) * 1000 + x.idx, size)
-        subs = []
-        for si, b in enumerate(t.get('subs', [{}])):
-            subs.append(RecordingSubscriber(w, x.label, f's{si}', b))
-        x.subs = subs
-        w.s3.labels[(BUCKET, x.key)] = x.label
-        if x.kind == 'upload':
-            src = t.get('src', 'path')
-            if src == 'path':
-                path = os.path.join(tmpdir, f'src-{x.idx}')
-                with open(path, 'wb') as f:
-                    f.write(x.data)
-                osu.labels[path] = x.label
-                x.src = path
-            elif src == 'seekable':
-                start = t.get('start', 0)
-                full = payload(7777 + x.idx, start) + x.data
-                x.src = SeekableSource(w, x.label, full, start=start, read_caps=t.get('src_caps'))
-            else:
-                x.src = NonSeekableSource(w, x.label, x.data)
-        elif x.kind == 'download':
-            w.s3.objects[(BUCKET, x.key)] = x.data
-            dst = t.get('dst', 'path')
-            if dst == 'path':
-                path = os.path.join(tmpdir, f'dst-{x.idx}')
-                osu.labels[path] = x.label
-                if t.get('preexisting'):
-                    x.prev = b'previous-content-' + str(x.idx).encode()
-                    with open(path, 'wb') as f:
-                        f.write(x.prev)
-                x.dest = path
-            elif dst == 'seekable':
-                x.dest = SeekableSink(w, x.label)
-            elif dst == 'nonseekable':
-                x.dest = NonSeekableSink(w, x.label)
-            elif dst == 'fifo':
-                path = os.path.join(tmpdir, f'fifo-{x.idx}')
-                os.mkfifo(path)
-                osu.labels[path] = x.label
-                x.dest = path
-                x.fifo_reader = FifoReader(path)
-                x.fifo_reader.start()
-        elif x.kind == 'copy':
-            w.s3.objects[(SRC_BUCKET, 'src-' + x.key)] = x.data
-            w.s3.labels[(SRC_BUCKET, 'src-' + x.key)] = x.label
-        elif x.kind == 'delete':
-            w.s3.objects[(BUCKET, x.key)] = x.data
+        prepare_xfer(obs, x)
 
     if spec.get('dirwatch'):
         from .oracles import DirWatch
@@ -438,12 +443,28 @@ def _drive(obs, mgr, xfers, spec, mode, do_cancel):
                 return
             obs.probe = pr.result
             obs.probe_exc = pr.exc
+        if spec.get('fresh'):
+            fx = Xfer(len(xfers), dict(spec['fresh']))
+            fx.fresh = True
+            prepare_xfer(obs, fx)
+            xfers.append(fx)
+            log.add('submit.begin', label=fx.label, fresh=True)
+            so = watchdog.Obligation(lambda: submit_one(mgr, fx), name='submit-fresh').start()
+            if not _await(obs, so.done.is_set, 'submit-fresh'):
+                return
+            if fx.future is not None:
+                fo = watchdog.Obligation(lambda: _collect(fx, log), name='result-fresh').start()
+                fx.result_ob = fo
+                if not _await(obs, fo.done.is_set, 'result-fresh'):
+                    return
+                _record_outcomes([fx])
         log.add('shutdown.begin')
         sh = watchdog.Obligation(lambda: mgr.shutdown(), name='shutdown').start()
         if not _await(obs, sh.done.is_set, 'shutdown'):
             return
         obs.shutdown_exc = sh.exc
         log.add('shutdown.end', error=repr(sh.exc) if sh.exc else None)
+        _post_shutdown(obs)
     elif mode in ('shutdown_cancel', 'with_exc', 'with_kbi', 'shutdown_plain'):
         # wait for the trigger (a director cancel point signalling the main
         # thread) or, without one, go straight away
@@ -455,8 +476,9 @@ def _drive(obs, mgr, xfers, spec, mode, do_cancel):
             if not _await(obs, trig_or_done, 'trigger'):
                 return
         msg = spec.get('cancel_msg', 'bye')
-        ev = log.add('cancel.begin', how=mode, msg=msg)
-        obs.cancel_events.append(ev)
+        if mode != 'shutdown_plain':
+            ev = log.add('cancel.begin', how=mode, msg=msg)
+            obs.cancel_events.append(ev)
         w.director.cancel_began = True
 
         def leave():
@@ -483,8 +505,11 @@ def _drive(obs, mgr, xfers, spec, mode, do_cancel):
         if not ok:
             return
         obs.shutdown_exc = sh.exc
+        obs.done_at_barrier = {x.label: (x.future.done() if x.future is not None else None) for x in xfers}
         log.add('shutdown.end', error=repr(sh.exc) if sh.exc else None)
-        log.add('cancel.end', how=mode)
+        if mode != 'shutdown_plain':
+            log.add('cancel.end', how=mode)
+        _post_shutdown(obs)
         # after the barrier every future must already be done: result() must not block
         obl = start_results()
         if not _await(obs, lambda: all(o.done.is_set() for o in obl), 'result-after-shutdown'):
@@ -535,6 +560,16 @@ def capacity_probe(mgr, cfg):
                 f.result()
         out[name] = (accepted, expected)
     return out
+
+
+def _post_shutdown(obs):
+    """After the barrier: let anything still alive run, then record what threads remain."""
+    w = obs.world
+    with watchdog.polling():
+        obs.post_quiescent = watchdog.wait_quiescent(5.0, director=w.director, need=3)
+    w.log.add('post.check')
+    obs.live_stage_threads = [t.name for t in threading.enumerate()
+                              if t.name.startswith(('vf-request', 'vf-submission', 'vf-io')) and t.is_alive()]
 
 
 def _record_outcomes(xfers):
